@@ -526,6 +526,24 @@ class SymInt:
             return SymFloat(z3.ToReal(self.t)).__sub__(o)
         return SymInt(self.t - b)
 
+    def __rsub__(self, o):
+        b = self._l(o)
+        if b is None:
+            return SymFloat(z3.ToReal(self.t)).__rsub__(o)
+        return SymInt(b - self.t)
+
+    def __truediv__(self, o):
+        return SymFloat(z3.ToReal(self.t)).__truediv__(o)
+
+    def __rtruediv__(self, o):
+        return SymFloat(z3.ToReal(self.t)).__rtruediv__(o)
+
+    def __neg__(self):
+        return SymInt(-self.t)
+
+    def __float__(self):
+        return SymFloat(z3.ToReal(self.t))
+
     def __mul__(self, o):
         b = self._l(o)
         if b is None:
